@@ -35,9 +35,9 @@ fn main() {
     ];
     let only: Option<String> = arg_value(&args, "--copies");
     let mut out = Out::create(&outp);
-    // a call that does not return within VERIF_HANG_SECS (default 20 s; inputs are a few kB) is recorded as kind "hang";
+    // a call that does not return within VERIF_HANG_SECS (default 60 s; inputs are a few kB) is recorded as kind "hang";
     // a copy that hung once is not called again (every later record of it is "hang" too)
-    let limit: u64 = std::env::var("VERIF_HANG_SECS").ok().and_then(|s| s.parse().ok()).unwrap_or(20);
+    let limit: u64 = std::env::var("VERIF_HANG_SECS").ok().and_then(|s| s.parse().ok()).unwrap_or(60);
     let mut hung: std::collections::HashSet<String> = std::collections::HashSet::new();
     for r in read_records(&inp) {
         let bytes: Vec<u8> = r["bytes"].as_array().unwrap().iter().map(|x| x.as_u64().unwrap() as u8).collect();
